@@ -426,9 +426,13 @@ def run_framing_lines(env, p):
     stream = b'ab' + eol + b'' + eol + b'cd' + eol
     dev.on_send = lambda data: split_chunks(env, stream, 's', maxcuts=3)
     dev.step = lambda: 0.5
-    r1 = io.communicate('x')
-    r2 = io._conn.readline(2)
-    r3 = io._conn.readline(2)
+    try:
+        r1 = io.communicate('x')
+        r2 = io._conn.readline(2)
+        r3 = io._conn.readline(2)
+    except Exception as e:
+        env.fail(K + '/framing-failed-although-device-replied/' + type(e).__name__, repr(e)[:100])
+        return
     env.check([r1, r2, r3] == ['ab', b'', b'cd'], K + '/lines-depend-on-chunking', [r1, r2, r3])
     env.check(io._conn._rxbuffer == b'' and not dev.pending, K + '/bytes-left-over')
     env.note('reply')
@@ -445,9 +449,13 @@ def run_framing_bytes(env, p):
     n = env.choice('n', 6)
     dev.on_send = lambda data: split_chunks(env, stream, 's', maxcuts=3)
     dev.step = lambda: 0.5
-    r = io.communicate(b'x', n)
+    try:
+        r = io.communicate(b'x', n)
+        rest = io.readBytes(len(stream) - n)
+    except Exception as e:
+        env.fail(K + '/framing-failed-although-device-replied/' + type(e).__name__, repr(e)[:100])
+        return
     env.check(r == stream[:n], K + '/bytes-depend-on-chunking', [n, r])
-    rest = io.readBytes(len(stream) - n)
     env.check(rest == stream[n:], K + '/rest-depends-on-chunking', [n, rest])
     env.note('reply')
     for t in ('timeout', 'reconnected', 'refused'):
